@@ -82,11 +82,80 @@ def first_datagram_task(ctx, examples, shard):
     run_hypothesis(ctx, body, strat, examples, shard=shard)
 
 
+def repeated_hello_case(ctx, case):
+    """A real client whose server never seems to answer: its ClientHello and the PTO retransmissions of it (1-4 datagrams) reach a fresh server with a
+    long certificate chain, which answers each of them and fires its own timers; nothing of what the server sends gets back.  At every moment the
+    server has sent at most three times what it received."""
+    from aioquic.quic.connection import QuicConnection
+    from vlib import endpoints as E
+
+    with E.pinned(("c13-repeated-hello", case["leaf"], case["mds"], case["cmds"])):
+        c = QuicConnection(configuration=E.client_config(max_datagram_size=case["cmds"]))
+        c.connect(E.SERVER_ADDR, now=0.0)
+        s = QuicConnection(configuration=E.server_config(case["leaf"], max_datagram_size=case["mds"]), original_destination_connection_id=c.original_destination_connection_id)
+        now = 0.0
+        received = sent = 0
+        worst = None
+
+        def server_turn(t):
+            nonlocal sent, worst
+            for data, addr in s.datagrams_to_send(now=t):
+                sent += len(data)
+                if sent > 3 * received and worst is None:
+                    worst = (t, sent, received)
+            while s.next_event() is not None:
+                pass
+
+        try:
+            for k in range(case["copies"]):
+                dgs = c.datagrams_to_send(now=now)
+                for data, addr in dgs:
+                    now += 0.0005
+                    received += len(data)
+                    s.receive_datagram(data, E.CLIENT_ADDR, now=now)
+                    if case["turn_after_each"]:
+                        server_turn(now)
+                server_turn(now)
+                # the server's timers run while the client waits for its own probe timeout
+                t_c = c.get_timer()
+                if t_c is None:
+                    break
+                if case["server_timers"]:
+                    for _ in range(6):
+                        t_s = s.get_timer()
+                        if t_s is None or t_s > t_c:
+                            break
+                        s.handle_timer(now=max(now, t_s))
+                        server_turn(max(now, t_s))
+                now = max(now, t_c)
+                c.handle_timer(now=now)
+        except Exception:  # noqa - exceptions are C05's subject
+            ctx.cls("repeated-hello:api-raised")
+        ctx.case(("rh", repr(case)), nontrivial=sent >= 3 * received - 1500, classes=["repeated-hello:" + case["leaf"], "repeated-hello:copies-%d" % case["copies"], "repeated-hello:" + ("budget-exhausted" if sent >= 3 * received - 100 else "budget-left")])
+        if worst is not None:
+            ctx.violation("anti-amplification-limit-exceeded", "at t=%.4f the server (chain %s, max_datagram_size %d) had sent %d bytes to an address from which it had received %d bytes (%d client Initial datagrams, nothing validated)" % (worst[0], case["leaf"], case["mds"], worst[1], worst[2], case["copies"]), case)
+
+
+def repeated_hello_task(ctx, examples, shard):
+    from hypothesis import strategies as st
+    from vlib.harness import run_hypothesis
+
+    strat = st.fixed_dictionaries({"kind": st.just("repeated-hello"), "leaf": st.sampled_from(["chain-long", "chain-long", "chain3", "rsa", "ed25519"]), "mds": st.sampled_from([1200, 1280, 1350, 1452, 1472, 1500]), "cmds": st.sampled_from([1200, 1200, 1280, 1500]), "copies": st.integers(1, 4), "turn_after_each": st.booleans(), "server_timers": st.booleans()})
+
+    def body(ctx, case):
+        repeated_hello_case(ctx, case)
+        if ctx.want_sample():
+            ctx.sample(case)
+
+    run_hypothesis(ctx, body, strat, examples, shard=shard)
+
+
 def plan(tier, seed):
     from vlib import simchecks
 
     t = simchecks.plan_for("C13", tier, seed)
     t.append(("first-datagram-shapes", {"fn": "firstdg", "examples": 150 if tier == "quick" else 6000, "shard": 0}))
+    t.append(("repeated-client-hello", {"fn": "rhello", "examples": 200 if tier == "quick" else 3000, "shard": 0}))
     return t
 
 
@@ -95,12 +164,16 @@ def run_task(ctx, name, fn, **kw):
 
     if fn == "firstdg":
         return first_datagram_task(ctx, kw["examples"], kw["shard"])
+    if fn == "rhello":
+        return repeated_hello_task(ctx, kw["examples"], kw["shard"])
     simchecks.run_task(ctx, "C13", name, fn, **kw)
 
 
 def replay(ctx, case):
     from vlib import simchecks
 
+    if case.get("kind") == "repeated-hello":
+        return repeated_hello_case(ctx, case)
     if case.get("kind") == "first-dg":
         return first_datagram_case(ctx, dict(case, extra=[tuple(x) for x in case["extra"]]))
     simchecks.replay(ctx, case, "C13")
